@@ -42,7 +42,8 @@ Proof. exact new_name_rejects. Qed.
 Print Assumptions C15_new_name_rejects.
 
 Theorem C15_name_roundtrip :
-  forall n n', new_name n = Ok n' -> read_name (fst (write_name [] 0 n')) 0 = Ok (n, name_wire_len n).
+  forall n n', new_name n = Ok n' ->
+    exists w c, write_name [] 0 n' = Some (w, c) /\ read_name w 0 = Ok (n, name_wire_len n).
 Proof. exact name_roundtrip. Qed.
 Print Assumptions C15_name_roundtrip.
 
